@@ -1,4 +1,5 @@
 import PikaVerif.Model.Shared
+import PikaVerif.Model.SharedLife
 import PikaVerif.Model.WhenAll
 import Driver.Util
 /-!
@@ -32,6 +33,8 @@ def toEvents (c : Case) (ls : List Line) : List (Option Shared.Ev × String) :=
     let ev (e : Shared.Ev) : Option (Option Shared.Ev × String) := some (some e, l.raw)
     match l.site with
     | "sl.lock" | "ag.yield" | "sh.chk1" => none
+    -- life=1 cases: destroying a sender that was never connected is not an event of the protocol model
+    | "inv.discard" | "ret.discard" | "life.rel" => none
     | "inv.complete" => ev (.invComplete t ⟨chOfThread c t, l.b⟩)
     | "fire.value" => ev (.fire t ⟨0, l.b⟩)
     | "fire.stopped" => ev (.fire t ⟨1, l.b⟩)
@@ -49,6 +52,98 @@ def toEvents (c : Case) (ls : List Line) : List (Option Shared.Ev × String) :=
     | "ret" => ev (.ret t)
     | "done" => ev (.tdone t)
     | _ => some (none, l.raw))
+
+/-! ### ownership layer (`Model/SharedLife.lean`)
+
+The hooks `sh.ref` / `sh.unref` / `sh.free` log every change of the shared state's reference count.  Lines
+that the harness produces inside one atomic block (no preemption point between them) are one model event:
+`inv.consume`+`sh.ref` (copy of the handle) = `consumeCopy`; `rcv.*`+`sh.unref`[+`sh.free`] (self-deleting
+consumer) = `rcvDel`; `inv.discard`+`sh.unref`[+`sh.free`]+`ret.discard` = `discard`; a lone
+`sh.unref`[+`sh.free`] = the predecessor's receiver leaving scope (`unrefR`).  Anything else (a lone `sh.ref` or
+`sh.free`, `life.touch-after-release`, …) is unparsed = rejected. -/
+
+/-- consumer indices named by `consume k` / `discard k` ops of the case's thread programs -/
+def opIndices (c : Case) : List Nat :=
+  c.threads.foldl (fun acc l =>
+    let toks := (l.splitOn " ").filter (· != "")
+    let rec go : List String → List Nat → List Nat
+      | a :: b :: rest, acc => if a == "consume" || a == "discard" then go rest (acc ++ [b.toNat?.getD 0]) else go (b :: rest) acc
+      | _, acc => acc
+    go toks acc) []
+
+def lifeCfg (c : Case) : SharedLife.Cfg :=
+  let kind := match c.get "kind" with
+    | "split_tuple" => Shared.Kind.tuple
+    | "ensure_started" => Shared.Kind.es
+    | _ => Shared.Kind.split
+  let life := c.get "life" == "1"
+  { kind := kind, stores := kind == .es || c.get "cfg" "fixed" != "pinned",
+    rcvHolds := c.get "rcvref" "1" != "0", selfdel := life,
+    handle := !life && kind == .split,
+    snds := if kind == .tuple then [0, 1] else if kind == .split && !life then [] else opIndices c }
+
+/-- `sh.unref n` optionally followed by `sh.free` of the same thread: (new count, freed, remaining lines) -/
+def takeUnref (t : Nat) : List Line → Option (Nat × Bool × List Line)
+  | u :: rest =>
+    if u.site == "sh.unref" && u.tid == t then
+      match rest with
+      | f :: rest' => if f.site == "sh.free" && f.tid == t then some (u.a.toNat, true, rest') else some (u.a.toNat, false, rest)
+      | [] => some (u.a.toNat, false, [])
+    else none
+  | [] => none
+
+def rsigOfLine (l : Line) : Option Shared.RSig :=
+  match l.site with
+  | "rcv.value" => some (.value l.b)
+  | "rcv.stopped" => some .stopped
+  | "rcv.error" => some (.error l.b)
+  | _ => none
+
+partial def toLifeEvents (c : Case) : List Line → List (Option SharedLife.Ev × String)
+  | [] => []
+  | l :: rest =>
+    let t := l.tid
+    let base (e : Shared.Ev) := (some (SharedLife.Ev.base e), l.raw) :: toLifeEvents c rest
+    match l.site with
+    | "inv.complete" => base (.invComplete t ⟨chOfThread c t, l.b⟩)
+    | "fire.value" => base (.fire t ⟨0, l.b⟩)
+    | "fire.stopped" => base (.fire t ⟨1, l.b⟩)
+    | "fire.error" => base (.fire t ⟨2, l.b⟩)
+    | "inv.consume" =>
+      match rest with
+      | r :: rest' =>
+        if r.site == "sh.ref" && r.tid == t then
+          (some (.consumeCopy t l.a.toNat r.a.toNat), l.raw) :: toLifeEvents c rest'
+        else base (.invConsume t l.a.toNat)
+      | [] => base (.invConsume t l.a.toNat)
+    | "sh.seen1" => base (.seen1 t (l.a != 0))
+    | "sh.seen2" => base (.seen2 t (l.a != 0))
+    | "sl.acq" => base (.slAcq t)
+    | "sl.rel" => base (.slRel t)
+    | "sh.done" => base (.flag t l.a.toNat)
+    | "sh.run" => base (.run t l.a.toNat)
+    | "rcv.value" | "rcv.stopped" | "rcv.error" =>
+      match rsigOfLine l with
+      | none => (none, l.raw) :: toLifeEvents c rest
+      | some r =>
+        -- only a self-deleting consumer (life=1) releases a reference inside its completion call; in the
+        -- default mode a `sh.unref` after the last continuation is the predecessor's receiver leaving scope
+        match (if c.get "life" == "1" then takeUnref t rest else none) with
+        | some (n, fr, rest') => (some (.rcvDel t l.a.toNat r n fr), l.raw) :: toLifeEvents c rest'
+        | none => base (.rcv t l.a.toNat r)
+    | "inv.discard" =>
+      match takeUnref t rest with
+      | some (n, fr, r :: rest') =>
+        if r.site == "ret.discard" && r.tid == t then (some (.discard t l.a.toNat n fr), l.raw) :: toLifeEvents c rest'
+        else (none, l.raw) :: toLifeEvents c rest
+      | _ => (none, l.raw) :: toLifeEvents c rest
+    | "sh.unref" =>
+      match takeUnref t (l :: rest) with
+      | some (n, fr, rest') => (some (.unrefR t n fr), l.raw) :: toLifeEvents c rest'
+      | none => (none, l.raw) :: toLifeEvents c rest
+    | "ret" => base (.ret t)
+    | "done" => base (.tdone t)
+    | _ => (none, l.raw) :: toLifeEvents c rest
 
 def accept {σ ε : Type} (step : σ → ε → Option σ) (s : σ) :
     List (Option ε × String) → Nat → Except (Nat × String) σ
@@ -81,7 +176,17 @@ def monitorsShared (c : Case) (ls : List Line) : List String :=
           some s!"consumer {k} received {r.site} {r.b} but the predecessor completed with {f.site} {f.b}"
         else none)
   let v3 := rcvs.filterMap (fun r => if consumers.contains r.a.toNat then none else some s!"signal for consumer {r.a} that was never started")
-  v0 ++ v1 ++ v2 ++ v3
+  -- life=1: every sender was consumed (self-deleting operation state) or discarded and the handle is gone, so
+  -- after a completed run the shared state must have been destroyed exactly once
+  let v4 := if c.get "life" != "1" || c.status != "ok" || fires.isEmpty then [] else
+    match (ls.filter (·.site == "life.rel")).getLast? with
+    | none => ["life=1 case without a life.rel note"]
+    | some l => if l.a == 1 && l.b == 1 then [] else
+        [s!"shared state allocated {l.b} time(s) but released {l.a} time(s) after every owner was gone (destroyed exactly once expected)"]
+  let v5 := if ls.any (·.site == "life.touch-after-release") then
+      ["the shared state was accessed after its last reference had been released (touch after release; guard allocator fault)"]
+    else if ls.any (·.site == "life.segv") then ["segmentation fault outside the guarded shared state"] else []
+  v5 ++ v0 ++ v1 ++ v2 ++ v3 ++ v4
 
 def pcName : Shared.Pc → String
   | .idle => "idle" | .fin => "fin" | _ => "busy"
@@ -92,15 +197,32 @@ def runShared (c : Case) (ls : List Line) : String :=
     | "split_tuple" => Shared.Kind.tuple
     | "ensure_started" => Shared.Kind.es
     | _ => Shared.Kind.split
-  let stores := kind == .es || c.get "cfg" "fixed" != "pinned"
-  let evs := toEvents c ls
+  let _ := kind
+  let cfg := lifeCfg c
+  -- scheduling noise and the harness' own bookkeeping notes are not model events
+  let core := ls.filter (fun l => !(["sl.lock", "ag.yield", "sh.chk1", "life.rel", "life.init"].contains l.site))
+  let evs := toLifeEvents c core
   let evs := if c.status == "abort" then
-      evs ++ [(some (Shared.Ev.abort ((ls.getLast?.map (·.tid)).getD 0)), "end abort")] else evs
+      evs ++ [(some (SharedLife.Ev.base (Shared.Ev.abort ((ls.getLast?.map (·.tid)).getD 0))), "end abort")] else evs
   let mon := monitorsShared c ls
   let monS := if mon.isEmpty then "monitors ok" else "monitors FAIL: " ++ " | ".intercalate mon
-  match accept Shared.step (Shared.init kind stores) evs 0 with
+  let s0 := SharedLife.init cfg
+  -- the reference count after the set-up, as the harness read it from the real object
+  match (ls.filter (·.site == "life.init")).head? with
+  | none => s!"case {c.id} reject 0 [no life.init line] ; {monS}"
+  | some li =>
+  if li.a.toNat != s0.rc then
+    s!"case {c.id} reject 0 [{li.raw}: the model starts with reference count {s0.rc}] ; {monS}" else
+  match accept SharedLife.step s0 evs 0 with
   | .error (i, raw) => s!"case {c.id} reject {i} [{raw}] ; {monS}"
-  | .ok s =>
+  | .ok sl =>
+    let s := sl.b
+    -- ownership: what the model says about `freed` must be what the guard allocator saw
+    let relOk := match (ls.filter (·.site == "life.rel")).getLast? with
+      | none => c.get "life" != "1" || c.status != "ok"
+      | some l => (l.a == 1) == sl.freed && l.a.toNat == sl.nfree
+    if !relOk then s!"case {c.id} accept {evs.length} ; final MISMATCH: model freed={sl.freed} nfree={sl.nfree} disagrees with the run's life.rel ; {monS}" else
+    if sl.uaf then s!"case {c.id} accept {evs.length} ; final MISMATCH: model reached touch-after-release ; {monS}" else
     let classes := (List.range n).map (fun t => pcName (s.pc t))
     let fin :=
       if c.status == "ok" then
